@@ -21,7 +21,49 @@ def hexs(s):
     return "".join("%02x" % b for b in s.encode()) or "-"
 
 
+PAGE_OFFSETS = [0, 0xffffffc000000000, 0xffffaf8000000000, 0xffffffd800000000, 0xffff800000000000,
+                0xc0000000, 0x7fffffffff, 0xffffffffffffffff]
+
+
+def pgt_addr(rng):
+    """addresses whose table indexes at the four 9-bit levels are even (present) or odd (not present)"""
+    base = rng.choice([0, 0, 0xffffffc000000000, 0xffff800000000000, 0xffffff8000000000, 0xffff000000000000,
+                       0x8000000000, 0xc0000000])
+    for b in (12, 21, 30, 39):
+        if rng.random() < 0.35:
+            base |= 1 << b
+    return (base + rng.choice([0, 0x234, 0xfff])) & 0xffffffffffffffff
+
+
+def gen_pgt_case(rng, nops):
+    """an OS set-up whose internal scans fail in a tolerated way (non-canonical base, unreadable or empty
+    root, missing number), then translations that fail in each way on the SAME context"""
+    ops = []
+    if rng.random() < 0.8:
+        ops.append("N%x" % rng.choice(PAGE_OFFSETS))
+    ops.append("G%d" % rng.choice([0, 1, 2, 3, 4, 5, 6]))
+    ops.append("I%d" % rng.randrange(8, 16))
+    for _ in range(nops):
+        k = rng.random()
+        if k < 0.55:
+            ops.append("P%x" % pgt_addr(rng))
+        elif k < 0.7:
+            ops.append("G%d" % rng.choice([0, 1, 2, 3, 4, 5, 6]))
+        elif k < 0.8:
+            a = rng.randrange(3)
+            ops.append("F%x:%x:%x" % (a, pgt_addr(rng), rng.randrange(3)))
+        elif k < 0.88:
+            ops.append("I%d" % rng.randrange(16))
+        elif k < 0.94:
+            ops.append("N%x" % rng.choice(PAGE_OFFSETS))
+        else:
+            ops.append("W%d:%x" % (rng.choice([2, 8]), pgt_addr(rng)))
+    return ops
+
+
 def gen_case(rng, nops):
+    if rng.random() < 0.4:
+        return gen_pgt_case(rng, nops)
     ops = []
     for _ in range(nops):
         k = rng.random()
@@ -39,11 +81,11 @@ def gen_case(rng, nops):
             a = rng.randrange(3)
             ops.append("F%x:%x:%x" % (a, rng.choice(ADDRS), a if rng.random() < 0.4 else rng.randrange(3)))
         elif k < 0.76:
-            ops.append("I%d" % rng.randrange(8))
+            ops.append("I%d" % rng.randrange(16))
         elif k < 0.84:
             ops.append("M%d" % rng.randrange(5))
         elif k < 0.89:
-            ops.append("G%d" % rng.randrange(3))
+            ops.append("G%d" % rng.randrange(7))
         elif k < 0.96:
             ops.append("E%s" % rng.choice(["1", "3", "5", "-3", "0", "6"]))
         else:
@@ -121,6 +163,29 @@ def check_entries(run):
                       found_input=False, signature="ax entries")
 
 
+def check_noerr(run):
+    """StatusModel.scan_mapped: every place that switches a noerr flag on restores it before any return"""
+    bad = []
+    n = 0
+    for f in sorted(glob.glob(os.path.join(core.REPO, "src", "addrxlat", "*.c"))):
+        src = open(f, errors="replace").read()
+        for m in re.finditer(r"noerr\.(\w+)\s*=\s*1\s*;", src):
+            n += 1
+            end = src.find("\n}\n", m.end())
+            body = src[m.end():end]
+            r = re.search(r"noerr\.%s\s*=\s*(?!1\s*;)" % m.group(1), body)
+            upto = body[:r.start()] if r else body
+            if r is None or re.search(r"\breturn\b", upto):
+                line = src.count("\n", 0, m.start()) + 1
+                bad.append("%s:%d" % (os.path.relpath(f, core.REPO), line))
+    run.count("noerr-set-sites", n)
+    if bad:
+        run.violation("tie", "a noerr flag is switched on and a return can be reached before it is restored "
+                      "(StatusModel.scan_mapped restores on every path): " + ", ".join(bad),
+                      {"engine": "errmsg-ax", "ops": "AXENTRIES", "sites": bad}, found_input=False,
+                      signature="ax noerr")
+
+
 def build(run):
     return run.need_cc("ax_drv", "ax_drv.c", sanitize=True, libs=True,
                        sources=core.lib_sources(which=("addrxlat",)))
@@ -155,7 +220,7 @@ def judge(run, cases, impl, twins=None):
     return bad
 
 
-ENTRY = "LSWOFI"
+ENTRY = "LSWOFIP"
 
 
 def twin(ops):
@@ -236,6 +301,7 @@ def report(run, exe, cases, impl, crashes, bad):
 
 def check(run):
     check_entries(run)
+    check_noerr(run)
     exe = build(run)
     if exe is None:
         return
@@ -266,6 +332,7 @@ def check(run):
 def replay(run, rp):
     if rp["ops"] == "AXENTRIES":
         check_entries(run)
+        check_noerr(run)
         return
     exe = build(run)
     if exe is None:
